@@ -28,7 +28,7 @@ META = dict(
                       '3 lenses x 8 edits x {every query asked before the edit, one of 10 queries asked before the edit}: every query after the '
                       'edit equals the same edit + query on a lens that was never queried',
                 thorough='adds all length-3 histories over a 10-operation sub-alphabet (4000) and 4 numeric variants'),
-    tolerances=dict(repeat='bit-identical (NaN positions equal)', batch='0 for closed-form surfaces, surface tol for iterative ones'),
+    tolerances=dict(repeat='bit-identical (NaN positions equal)', batch='0 for closed-form surfaces, 5e-9 (50 x the surface tolerance) for iterative ones'),
     assumptions=['unseeded RandomDistribution is excluded (the property excepts it)'],
 )
 
@@ -420,7 +420,9 @@ def run_batch(part, unit):
     o = LZ.build(sp)
     part.states += 1
     iterative = unit['lens'] == 'asphere-aperture'
-    tol = 1e-6 if iterative else 0.0
+    # closed-form surfaces: exact. Iterative surfaces: the documented intersection tolerance is 1e-10 mm on the sag residual;
+    # a ray's record may move by a small multiple of it with the batch (the loop runs until every ray of the batch converged)
+    tol = 5e-9 if iterative else 0.0
     for Hy in (0.0, 1.0):
         PX = np.array([0.0, 0.4, -0.7, 0.1])
         PY = np.array([0.0, 0.5, 0.2, -0.9])
@@ -447,7 +449,7 @@ def run_batch(part, unit):
                     for j, i in enumerate(idx):
                         for key in rb:
                             a_, b_ = float(np.asarray(rb[key])[j]), float(np.asarray(ref[i][key])[0])
-                            same = (math.isnan(a_) and math.isnan(b_)) or abs(a_ - b_) <= tol * max(1.0, abs(b_))
+                            same = (math.isnan(a_) and math.isnan(b_)) or abs(a_ - b_) <= tol
                             if not same:
                                 part.violation(PID, 'ray-independent-of-its-batch', f'Optic.{how}', f'lens={unit["lens"]}',
                                                dict(lens=unit['lens'], Hy=Hy, batch=idx, ray=i, quantity=key, variant=unit['variant']),
